@@ -89,6 +89,39 @@ func c18Expected(pure string) (Conf, bool) {
 	return c, true
 }
 
+// c18Defaults: the documented defaults, judged from the document itself (the generator's map), independently of how the
+// configuration type decodes: a field the document does not state must carry its default in the returned configuration.
+func c18Defaults(d map[string]interface{}, got Conf) []string {
+	var bad []string
+	absent := func(m map[string]interface{}, k string) bool {
+		v, ok := m[k]
+		return !ok || v == nil
+	}
+	tcStated := false
+	if pi, ok := d["p4rtciface"].(map[string]interface{}); ok {
+		tcStated = !absent(pi, "default_tc")
+	}
+	if !tcStated && got.P4rtcIface.DefaultTC != 3 {
+		bad = append(bad, fmt.Sprintf("default_tc: the document does not state p4rtciface.default_tc, the loaded value is %d (default 3)", got.P4rtcIface.DefaultTC))
+	}
+	if absent(d, "log_level") && got.LogLevel != zap.InfoLevel {
+		bad = append(bad, fmt.Sprintf("log_level: not stated, loaded %v (default info)", got.LogLevel))
+	}
+	if absent(d, "resp_timeout") && got.RespTimeout != "2s" {
+		bad = append(bad, fmt.Sprintf("resp_timeout: not stated, loaded %q (default 2s)", got.RespTimeout))
+	}
+	if absent(d, "read_timeout") && got.ReadTimeout != 15 {
+		bad = append(bad, fmt.Sprintf("read_timeout: not stated, loaded %d (default 15)", got.ReadTimeout))
+	}
+	if absent(d, "max_req_retries") && got.MaxReqRetries != 5 {
+		bad = append(bad, fmt.Sprintf("max_req_retries: not stated, loaded %d (default 5)", got.MaxReqRetries))
+	}
+	if got.EnableHBTimer && absent(d, "heart_beat_interval") && got.HeartBeatInterval != "5s" {
+		bad = append(bad, fmt.Sprintf("heart_beat_interval: not stated while heartbeats are enabled, loaded %q (default 5s)", got.HeartBeatInterval))
+	}
+	return bad
+}
+
 type c18Gen struct {
 	rng *rand.Rand
 }
@@ -408,6 +441,10 @@ func TestVerif_C18(t *testing.T) {
 				if bad := c18Validate(got); len(bad) > 0 {
 					res.violate("C18.R2", "invalid-returned "+strings.SplitN(bad[0], " ", 2)[0], fmt.Sprintf("a configuration was returned although: %v", bad), w)
 				}
+				if bad := c18Defaults(d, got); len(bad) > 0 {
+					res.violate("C18.R6", "default-missing "+strings.SplitN(bad[0], ":", 2)[0], fmt.Sprintf("a documented default is not filled in: %v", bad), w)
+				}
+				res.event("default_checks", 1)
 				if !decodes {
 					res.violate("C18.R2", "undecodable-accepted", "the document does not decode as JSON into the configuration type but a configuration was returned", w)
 					continue
